@@ -187,7 +187,13 @@ func genC02(seed, index uint64, tier string) *Plan {
 	for i := 0; i < n; i++ {
 		op := g.Op(i, ho)
 		op.Force = false // replace semantics are a different contract
-		p.Steps = append(p.Steps, Step{Op: &op})
+		st := Step{Op: &op}
+		if i > 0 && i < n-1 && (op.Op == "upgrade" || op.Op == "rollback") && g.Chance(0.2) {
+			// an operation that fails in the middle of the history: afterwards the deployed revision is not the last one.
+			// The faulted step itself is not judged (the cluster did not accept every request).
+			st.Faults = []FaultSpec{{Kind: FReject, Code: 403, Pred: &Pred{Storage: boolp(false), Mutating: boolp(true), PathHas: "/namespaces/", Nth: 1 + g.N(3)}}}
+		}
+		p.Steps = append(p.Steps, st)
 		if g.Chance(0.45) {
 			p.Steps = append(p.Steps, Step{Oob: g.oobAgainst(p)})
 		}
